@@ -195,7 +195,9 @@ func TestC13Completeness(t *testing.T) {
 		acDigest := g.toDigest(g.protoDigest([]byte(fmt.Sprintf("action-%d", g.n(0, 3, "action")))))
 		acMem.Set(acDigest, arBytes)
 		acMode := g.n(0, 2, "acmode")
-		c.Add(g.instance, int(g.fn), arBytes, batch, maxTotal, faultAt, int(faultCode), fault, int(kf), acMode, serve)
+		readPath := drawReadPath(t)
+		child := g.childOf(acDigest, readPath)
+		c.Add(g.instance, int(g.fn), arBytes, batch, maxTotal, faultAt, int(faultCode), fault, int(kf), acMode, serve, readPath, child.String())
 		for _, d := range g.order {
 			if s, ok := streamed[d]; ok {
 				c.Add(d.String(), s.chunks[0], s.eofWithData, s.failAfter)
@@ -206,7 +208,8 @@ func TestC13Completeness(t *testing.T) {
 		}
 
 		ba := completenesschecking.NewCompletenessCheckingBlobAccess(&acStore{Mem: acMem, mode: acMode}, sp, batch, maxMessageSize, maxTotal)
-		got, gerr := ba.Get(context.Background(), acDigest).ToByteSlice(1 << 20)
+		rd := readThrough(context.Background(), ba, readPath, acDigest, child)
+		got, gerr := rd.got, rd.err
 
 		final, err := referenceWalk(g.instance, g.fn, arBytes, mem, unreadable)
 		if err != nil {
@@ -214,6 +217,7 @@ func TestC13Completeness(t *testing.T) {
 		}
 		describe := func() string {
 			var sb strings.Builder
+			fmt.Fprintf(&sb, "  %s\n", rd)
 			fmt.Fprintf(&sb, "  instance=%q fn=%s batch=%d max_total_tree_size=%d cas_fault_at=%d tree_fault=%q malformed=%q cas_serves=%s\n", g.instance, g.fn, batch, maxTotal, faultAt, fault, g.malformDone, serve)
 			fmt.Fprintf(&sb, "  action result: %s\n", renderAR(arBytes))
 			for _, d := range g.order {
@@ -235,6 +239,17 @@ func TestC13Completeness(t *testing.T) {
 			return sb.String()
 		}
 		fired := faulty != nil && faulty.FiredCount() > 0
+		// A message handed to the caller's slicer has reached the caller,
+		// whatever the read finally returns.
+		for _, m := range rd.handed {
+			judge(t, judgeInput{
+				v: final, stored: arBytes, got: m, err: nil, spy: sp, maxTotal: maxTotal,
+				fired: fired, faultCode: faultCode, faultText: "injected fault at cas",
+				mutated: fault != "", describe: func() string {
+					return "  (message handed to the caller's slicer; the read itself ended with a different outcome)\n" + describe()
+				},
+			})
+		}
 		outcome := judge(t, judgeInput{
 			v: final, stored: arBytes, got: got, err: gerr, spy: sp, maxTotal: maxTotal,
 			fired: fired, faultCode: faultCode, faultText: "injected fault at cas",
@@ -244,6 +259,10 @@ func TestC13Completeness(t *testing.T) {
 
 		// Statistics.
 		c.Class("outcome_" + outcome)
+		c.Class("read_" + readPath)
+		c.Class("read_" + readPath + "_outcome_" + outcome)
+		c.ClassIf(rd.slicer != nil && rd.slicer.calls == 1, "slicer_called_once")
+		c.ClassIf(rd.slicer != nil && rd.slicer.calls != 1, "slicer_not_called_exactly_once")
 		c.ClassIf(len(final.missing) == 0 && len(final.malformed) == 0 && len(final.treeBad) == 0 && final.sumDup <= maxTotal && !fired, "all_present_and_well_formed")
 		if len(final.missing) == 1 {
 			c.NonTrivial()
@@ -389,7 +408,9 @@ func TestC13EachPosition(t *testing.T) {
 		acMem := backends.NewMem("ac", digest.KeyWithInstance)
 		acDigest := g.toDigest(g.protoDigest([]byte("action")))
 		acMem.Set(acDigest, arBytes)
-		c.Add(g.instance, int(g.fn), arBytes, batch, serve)
+		readPath := drawReadPath(t)
+		child := g.childOf(acDigest, readPath)
+		c.Add(g.instance, int(g.fn), arBytes, batch, serve, readPath, child.String())
 
 		run := func(removed string) (*verdict, string) {
 			srv := &casServer{Mem: mem, streamed: streamed, factory: factory, via: via}
@@ -399,10 +420,15 @@ func TestC13EachPosition(t *testing.T) {
 				t.Fatalf("harness: %v", err)
 			}
 			ba := completenesschecking.NewCompletenessCheckingBlobAccess(&acStore{Mem: acMem, mode: 1}, sp, batch, maxMessageSize, 1<<20)
-			got, gerr := ba.Get(context.Background(), acDigest).ToByteSlice(1 << 20)
-			outcome := judge(t, judgeInput{v: v, stored: arBytes, got: got, err: gerr, spy: sp, maxTotal: 1 << 20, describe: func() string {
-				return fmt.Sprintf("  batch=%d removed=%s\n  action result: %s\n  reference walker: missing=%v\n  calls seen by the CAS:\n%s  outcome: err=%v\n", batch, removed, renderAR(arBytes), v.missing, renderLog(sp), gerr)
-			}})
+			rd := readThrough(context.Background(), ba, readPath, acDigest, child)
+			got, gerr := rd.got, rd.err
+			describe := func() string {
+				return fmt.Sprintf("  %s\n  batch=%d removed=%s\n  action result: %s\n  reference walker: missing=%v\n  calls seen by the CAS:\n%s  outcome: err=%v\n", rd, batch, removed, renderAR(arBytes), v.missing, renderLog(sp), gerr)
+			}
+			for _, m := range rd.handed {
+				judge(t, judgeInput{v: v, stored: arBytes, got: m, spy: sp, maxTotal: 1 << 20, describe: describe})
+			}
+			outcome := judge(t, judgeInput{v: v, stored: arBytes, got: got, err: gerr, spy: sp, maxTotal: 1 << 20, describe: describe})
 			return v, outcome
 		}
 		full, outcome := run("nothing")
@@ -427,6 +453,7 @@ func TestC13EachPosition(t *testing.T) {
 		}
 		recEach.Count("objects_removed_in_turn", int64(len(full.refOrder)))
 		c.Class("serve_" + serve)
+		c.Class("read_" + readPath)
 		for _, d := range g.order {
 			if serve == "factory" && g.isTree[d] {
 				c.Class("factory_tree_via_" + via[d].method)
